@@ -160,6 +160,9 @@ pub struct World {
     pub sync_obs: BTreeMap<String, u64>,
     pub sync_errors: Vec<String>,
     pub be_violations: Vec<String>,
+    /// judge C13's "never makes the file larger" clause (only the C13 check does; elsewhere a
+    /// growth is counted, not judged, so that it is attributed to the right property)
+    pub judge_compact_size: bool,
 }
 
 pub fn key_u64(i: u64) -> Vec<u8> {
@@ -370,6 +373,7 @@ impl World {
             sync_obs: BTreeMap::new(),
             sync_errors: vec![],
             be_violations: vec![],
+            judge_compact_size: false,
         };
         w.push_commit(true, 0, 0, "create");
         Ok(w)
@@ -1241,15 +1245,28 @@ impl World {
         self.esp.clear();
         let before_len = self.be.lock().data.len();
         let has_psp = !self.psp.is_empty();
+        let allocated_before = {
+            let txn = self.db().begin_write().map_err(se("begin_write"))?;
+            let a = txn.stats().map_err(se("stats"))?.allocated_pages();
+            txn.abort().map_err(se("abort"))?;
+            a
+        };
         let db = self.db.as_mut().expect("database open");
         match db.compact() {
             Ok(_) => {
                 ensure!(!has_psp, "compact() ran although a persistent savepoint exists");
                 let after_len = self.be.lock().data.len();
-                ensure!(
-                    after_len <= before_len,
-                    "compact() grew the file from {before_len} to {after_len} bytes"
-                );
+                if after_len > before_len {
+                    self.bump("db.compact_grew_file");
+                    let ps = self.cfg.page_size;
+                    let free_before = (before_len / ps) as u64 - 1 - allocated_before.min((before_len / ps) as u64 - 1);
+                    if self.judge_compact_size {
+                        return oracle(format!(
+                            "compact() grew the file from {before_len} to {after_len} bytes (grew by {} pages; {free_before} free pages before)",
+                            (after_len - before_len) / ps
+                        ));
+                    }
+                }
                 self.mark_all_durable();
                 self.bump("db.compact");
             }
